@@ -70,6 +70,12 @@ pub fn build(e: &mut Ent, f: &Force) -> (StepCase, Tag) {
         }
     }
     let pc = e.code_addr(2, &[target, frame]);
+    if kind == 0 && e.chance(1, 16) {
+        // rare class: the exception frame overlaps the TRAPA instruction itself
+        let f = (pc + 2).wrapping_sub(2 * e.below(4));
+        er[7] = (f.wrapping_add(4) & MASK24) | (er[7] & 0xff00_0000);
+        frame = f & MASK24;
+    }
     let bus = e.bus_cfg();
     (StepCase { code, pc, er, ccr, patches, bus, irq }, Tag { kind, n, frame, target, top })
 }
